@@ -38,7 +38,7 @@ const (
 
 // Op is one operation of a history (JSON = the replay format).
 type Op struct {
-	K   string   `json:"k"`             // fund bond add redel edit withdraw unbond gov params confirm addbatch execbatch observeset addcall delcall slashval exportimport block
+	K   string   `json:"k"`             // fund bond add redel edit withdraw unbond gov params confirm addbatch execbatch observeset addcall delcall slashval slashpast jail unjail exportimport block
 	M   int      `json:"m"`             // module index (ignored by block)
 	A   int      `json:"a,omitempty"`   // oracle account id
 	B   int      `json:"b,omitempty"`   // bridger account id
@@ -133,6 +133,7 @@ type world struct {
 	valID  map[string]int
 	badV   sdk.ValAddress
 	ubtime int64
+	vstat  [][2]int64 // last reported status of each validator: 0 bonded / 1 unbonding / 2 unbonded, completion time
 }
 
 func newWorld(seed int64, modules []string) *world {
@@ -494,6 +495,9 @@ func (w *world) apply(op Op) []applied {
 	case "slashval":
 		// the staking module slashes validator V (what evidence / downtime handling does), infraction at the current height
 		amount := big.NewInt(0)
+		if !w.bonded(op.V) {
+			return nil
+		}
 		if op.V >= 0 && op.V < len(c.ValKeys) {
 			val, e := c.App.StakingKeeper.GetValidator(c.Ctx, w.val(op.V))
 			lib.Must(e)
@@ -516,6 +520,78 @@ func (w *world) apply(op Op) []applied {
 			res = append(res, a)
 		}
 		return res
+	case "slashpast":
+		// the staking module slashes validator V for an infraction op.N blocks ago (evidence / downtime handling): besides
+		// the validator's tokens this cuts unbonding entries and redelegations created since then
+		if op.V < 0 || op.V >= len(c.ValKeys) {
+			return nil
+		}
+		val, e := c.App.StakingKeeper.GetValidator(c.Ctx, w.val(op.V))
+		lib.Must(e)
+		hinf := c.Ctx.BlockHeight() - op.N
+		if hinf < 1 || op.N < 1 || !val.IsBonded() {
+			return nil
+		}
+		rws := make([][]string, len(w.mods))
+		for i, mm := range w.mods {
+			for a := 0; a < nOracles; a++ {
+				if rec, ok := mm.record(a); ok {
+					if r := mm.pendingReward(a, rec.GetValidator()); r.Sign() != 0 {
+						rws[i] = append(rws[i], lib.Pair(fmt.Sprint(a), r.String()))
+					}
+				}
+			}
+		}
+		frac := sdkmath.LegacyNewDecFromBigIntWithPrec(bigOf(op.Amt), 18)
+		cons, e := val.GetConsAddr()
+		lib.Must(e)
+		err = c.Try(func(ctx sdk.Context) error {
+			_, e := c.App.StakingKeeper.Slash(ctx, cons, hinf, val.ConsensusPower(sdk.DefaultPowerReduction), frac)
+			return e
+		})
+		var vs []string
+		for i, k := range c.ValKeys {
+			v2, e := c.App.StakingKeeper.GetValidator(c.Ctx, k.Val())
+			lib.Must(e)
+			vs = append(vs, fmt.Sprintf("(%d, %s, %s)", i, v2.Tokens, v2.DelegatorShares.BigInt()))
+		}
+		var res []applied
+		for i := range w.mods {
+			a := applied{mod: i, coqOp: fmt.Sprintf("SlashValPast %d %d %s %s %s", op.V, hinf, op.Amt, lib.List(vs), lib.List(rws[i])), class: classOf(err)}
+			if err != nil {
+				a.err = err.Error()
+			}
+			res = append(res, a)
+		}
+		return res
+	case "jail", "unjail":
+		// the validator is jailed (downtime / double sign) or comes back: it leaves / re-enters the bonded set at the end
+		// of the block (observed, see statusSteps)
+		if op.V < 0 || op.V >= len(c.ValKeys) {
+			return nil
+		}
+		val, e := c.App.StakingKeeper.GetValidator(c.Ctx, w.val(op.V))
+		lib.Must(e)
+		cons, e := val.GetConsAddr()
+		lib.Must(e)
+		if (op.K == "jail") == val.Jailed {
+			return nil
+		}
+		if op.K == "jail" {
+			jailed := 0
+			for _, k := range c.ValKeys {
+				if v2, _ := c.App.StakingKeeper.GetValidator(c.Ctx, k.Val()); v2.Jailed {
+					jailed++
+				}
+			}
+			if jailed >= len(c.ValKeys)-1 {
+				return nil // keep a validator set
+			}
+			lib.Must(c.App.StakingKeeper.Jail(c.Ctx, cons))
+		} else {
+			lib.Must(c.App.StakingKeeper.Unjail(c.Ctx, cons))
+		}
+		return nil
 	case "addcall":
 		// like batches: the object is stored with the keeper's own setter (its construction is C05/C06 matter)
 		dest := crosschaintypes.ExternalAddrToStr(m.name, crypto.PubkeyToAddress(m.extKey[200].PublicKey).Bytes())
@@ -883,4 +959,38 @@ func (m *modw) observe(claim crosschaintypes.ExternalClaim) bool {
 		}
 	}
 	return k.GetLastObservedEventNonce(c.Ctx) >= target
+}
+
+// statusSteps: validators that changed status since the last report (jailed -> unbonding -> unbonded, unjailed ->
+// bonded), as environment steps for every module
+func (w *world) statusSteps() []string {
+	c := w.c
+	var out []string
+	for i, k := range c.ValKeys {
+		val, err := c.App.StakingKeeper.GetValidator(c.Ctx, k.Val())
+		lib.Must(err)
+		st, until := int64(0), int64(0)
+		switch {
+		case val.IsUnbonding():
+			st, until = 1, int64(val.UnbondingTime.Sub(lib.GenesisTime)/time.Second)
+		case val.IsUnbonded():
+			st = 2
+		}
+		for len(w.vstat) <= i {
+			w.vstat = append(w.vstat, [2]int64{0, 0})
+		}
+		if w.vstat[i] != [2]int64{st, until} {
+			w.vstat[i] = [2]int64{st, until}
+			out = append(out, fmt.Sprintf("(EnvStat %d %d %d, 0, [])", i, st, until))
+		}
+	}
+	return out
+}
+
+func (w *world) bonded(v int) bool {
+	if v < 0 || v >= len(w.c.ValKeys) {
+		return false
+	}
+	val, err := w.c.App.StakingKeeper.GetValidator(w.c.Ctx, w.c.ValKeys[v].Val())
+	return err == nil && val.IsBonded()
 }
